@@ -1398,7 +1398,24 @@ class Enumerated(Type):
     def format_root_indexes(self):
         return format_or(sorted(list(self.root_index_to_data)))
 
+    def format_names(self):
+        names = list(self.root_data_to_index)
+
+        if self.additions_data_to_index is not None:
+            names += list(self.additions_data_to_index)
+
+        return format_or(sorted(names))
+
     def encode(self, data, encoder):
+        try:
+            self.encode_value(data, encoder)
+        except KeyError:
+            raise EncodeError(
+                "Expected enumeration value {}, but got '{}'.".format(
+                    self.format_names(),
+                    data))
+
+    def encode_value(self, data, encoder):
         if self.additions_index_to_data is None:
             index = self.root_data_to_index[data]
             encoder.append_non_negative_binary_integer(index,
@@ -1410,8 +1427,8 @@ class Enumerated(Type):
                 encoder.append_non_negative_binary_integer(index,
                                                            self.root_number_of_bits)
             else:
-                encoder.append_bit(1)
                 index = self.additions_data_to_index[data]
+                encoder.append_bit(1)
                 encoder.append_normally_small_non_negative_whole_number(index)
 
     def decode(self, decoder):
